@@ -4,6 +4,7 @@ import (
 	"fmt"
 	"sort"
 	"strings"
+	"sync"
 
 	"verif/harness/hx"
 )
@@ -30,15 +31,24 @@ type Data struct {
 	Order    []string                  `json:"order"`
 	Roots    map[string]map[string]Val `json:"roots"` // "Query"/"Mutation"/"Subscription" → field → value
 	Counters map[string]int            `json:"-"`     // mutation side effects: field → number of executions
+	mu       sync.Mutex
+}
+
+// Bump counts one execution of a mutation root field (services answer concurrently).
+func (d *Data) Bump(field string) {
+	d.mu.Lock()
+	if d.Counters == nil {
+		d.Counters = map[string]int{}
+	}
+	d.Counters[field]++
+	d.mu.Unlock()
 }
 
 func Null() Val { return Val{Kind: "null"} }
 
 // Clone copies the mutable part (counters); entities are immutable after generation.
 func (d *Data) Clone() *Data {
-	c := *d
-	c.Counters = map[string]int{}
-	return &c
+	return &Data{Entities: d.Entities, Order: d.Order, Roots: d.Roots, Counters: map[string]int{}}
 }
 
 // IDAlphabet selects how entity ids look.
@@ -176,3 +186,6 @@ func CanonArgs(args map[string]interface{}) string {
 	}
 	return strings.Join(parts, ",")
 }
+
+// AllEntityIDs lists every entity id, in creation order.
+func (d *Data) AllEntityIDs() []string { return append([]string(nil), d.Order...) }
